@@ -44,6 +44,33 @@ static void do_bool(const J& g, W& w) {
     log_polys(w, "ma", ma, S, ok);
     log_polys(w, "mb", mb, S, ok);
     w.kb("lat", ok).kv("err", err);
+    // the same operations on a 1e9 grid (scaled coordinates beyond 32 bits): signed areas of the
+    // results in 1/1000 square user unit [or, and, xor, not, merged a, merged b], and the error code
+    {
+        const double BIG = 1e9;
+        auto area_of = [](Array<Polygon*>& r) {
+            double a = 0;
+            for (uint64_t i = 0; i < r.count; i++) a += fabs(r[i]->area());
+            return a;
+        };
+        int64_t berr = 0;
+        w.key("big").begin_arr();
+        for (int k = 0; k < 4; k++) {
+            Array<Polygon*> res = {};
+            ErrorCode e = boolean(A, B, ops[k], BIG, res);
+            if (e != ErrorCode::NoError) berr = (int64_t)e;
+            w.i((int64_t)llround(area_of(res) * 1000));
+            free_polys(res);
+        }
+        Array<Polygon*> ba = {}, bb = {};
+        merge(A, BIG, ba);
+        merge(B, BIG, bb);
+        w.i((int64_t)llround(area_of(ba) * 1000)).i((int64_t)llround(area_of(bb) * 1000));
+        w.end_arr();
+        w.kv("big_err", berr);
+        free_polys(ba);
+        free_polys(bb);
+    }
 }
 
 static void do_fracture(const J& g, W& w) {
